@@ -103,6 +103,15 @@ def elem_flat(x):
     return np.concatenate(arrs)
 
 
+def assign_flat(x, vals):
+    """Inverse of elem_flat: write the entries back in place."""
+    pos = 0
+    for a in elem_arrays(x):
+        n = a.size
+        a[...] = np.asarray(vals[pos:pos + n]).reshape(a.shape)
+        pos += n
+
+
 def elem_snapshot(x):
     return [np.array(a, copy=True) for a in elem_arrays(x)]
 
